@@ -70,9 +70,16 @@ func (s *JSONFileStorage) Stop() error {
 	if err != nil {
 		return fmt.Errorf("failed to marshal json storage: %w", err)
 	}
-	err = os.WriteFile(s.filename, data, 0o0644) //nolint:gosec // no secrets
+	// Write to a temporary file and rename it into place, so that a crash
+	// while writing never leaves a truncated or half-written state file behind.
+	tmpName := s.filename + ".tmp"
+	err = os.WriteFile(tmpName, data, 0o0644) //nolint:gosec // no secrets
 	if err != nil {
-		return fmt.Errorf("failed to write json storage to %s: %w", s.filename, err)
+		return fmt.Errorf("failed to write json storage to %s: %w", tmpName, err)
+	}
+	err = os.Rename(tmpName, s.filename)
+	if err != nil {
+		return fmt.Errorf("failed to move json storage to %s: %w", s.filename, err)
 	}
 	return nil
 }
